@@ -293,6 +293,7 @@ type guardsEnv struct {
 	an      *guardsAn
 	pkg     *packages.Package
 	subst   map[types.Object]string
+	structs map[types.Object]map[string]string // local message values built from a composite literal: field -> text
 	found   map[types.Object]guardsLookup
 	esmVars map[types.Object]bool
 	brkVars map[types.Object]string
@@ -327,6 +328,11 @@ func (e *guardsEnv) txt(x ast.Expr) string {
 		}
 		return v.Name
 	case *ast.SelectorExpr:
+		if m := e.structView(v.X); m != nil {
+			if t, ok := m[v.Sel.Name]; ok {
+				return t
+			}
+		}
 		return e.txt(v.X) + "." + v.Sel.Name
 	case *ast.CallExpr:
 		var as []string
@@ -348,6 +354,48 @@ func (e *guardsEnv) txt(x ast.Expr) string {
 		return e.txt(v.X) + "[" + e.txt(v.Index) + "]"
 	}
 	return types.ExprString(x)
+}
+
+// structView: the field map of a variable (or &variable) that was built from a composite literal
+func (e *guardsEnv) structView(x ast.Expr) map[string]string {
+	switch v := x.(type) {
+	case *ast.ParenExpr:
+		return e.structView(v.X)
+	case *ast.UnaryExpr:
+		if v.Op == token.AND {
+			return e.structView(v.X)
+		}
+	case *ast.StarExpr:
+		return e.structView(v.X)
+	case *ast.Ident:
+		if o := e.objOf(v); o != nil && e.structs != nil {
+			return e.structs[o]
+		}
+	}
+	return nil
+}
+
+func (e *guardsEnv) litView(x ast.Expr) map[string]string {
+	if u, ok := x.(*ast.UnaryExpr); ok && u.Op == token.AND {
+		x = u.X
+	}
+	cl, ok := x.(*ast.CompositeLit)
+	if !ok {
+		return nil
+	}
+	m := map[string]string{}
+	for _, el := range cl.Elts {
+		kv, ok := el.(*ast.KeyValueExpr)
+		if !ok {
+			return nil
+		}
+		k, ok := kv.Key.(*ast.Ident)
+		if !ok {
+			return nil
+		}
+		m[k.Name] = e.txt(kv.Value)
+	}
+	return m
 }
 
 func (e *guardsEnv) signerDerived(t string) bool {
@@ -775,6 +823,10 @@ func (e *guardsEnv) simpleAssign(s ast.Stmt) {
 	e.trackEsmAssign(as)
 	if len(as.Lhs) == 1 && len(as.Rhs) == 1 {
 		if o := e.objOf(as.Lhs[0]); o != nil {
+			if m := e.litView(as.Rhs[0]); m != nil {
+				e.structs[o] = m
+				return
+			}
 			if _, isField := as.Lhs[0].(*ast.Ident); isField {
 				t := e.txt(as.Rhs[0])
 				if strings.Contains(t, "msg.") {
@@ -792,7 +844,8 @@ func (e *guardsEnv) handleCall(call *ast.CallExpr, lhs []ast.Expr, checked bool,
 	// nested calls in the arguments that write (rare)
 	if !writes {
 		if ws := e.writingCalls(call); len(ws) > 0 {
-			e.emit(e.writeItem(ws, ""))
+			// the writes happen in a callback / argument of this call: attribute them to the call
+			e.emit(e.writeItem([]*ast.CallExpr{call}, "callback:"))
 			return
 		}
 	}
@@ -809,6 +862,12 @@ func (e *guardsEnv) handleCall(call *ast.CallExpr, lhs []ast.Expr, checked bool,
 		if e.depth == 0 && len(cals) == 1 && checked {
 			if d, ok := e.an.decls[cals[0]]; ok && !e.stack[cals[0]] && !e.an.directWrite(e.pkg, call) && d.pkg == e.pkg {
 				e.inlineAs(cals[0], d, call, lhs, false)
+				return
+			}
+		}
+		if e.depth >= 1 && e.depth < guardsMaxDepth && len(cals) == 1 && checked && !e.helper {
+			if d, ok := e.an.decls[cals[0]]; ok && !e.stack[cals[0]] && !e.an.directWrite(e.pkg, call) && d.pkg == e.pkg {
+				e.emit(fmt.Sprintf("ICallSub %s %v", coqString(e.subRow(cals[0], d, call)), e.anySignerArg(call)))
 				return
 			}
 		}
@@ -868,7 +927,7 @@ func (e *guardsEnv) inline(fn *types.Func, d guardsDecl, call *ast.CallExpr, lhs
 // so the helper's remaining checks do not dominate what follows in the caller: the walk of the
 // helper stops there.
 func (e *guardsEnv) inlineAs(fn *types.Func, d guardsDecl, call *ast.CallExpr, lhs []ast.Expr, helper bool) {
-	sub := &guardsEnv{helper: helper || e.helper, an: e.an, pkg: d.pkg, subst: map[types.Object]string{}, found: map[types.Object]guardsLookup{},
+	sub := &guardsEnv{helper: helper || e.helper, an: e.an, pkg: d.pkg, subst: map[types.Object]string{}, structs: map[types.Object]map[string]string{}, found: map[types.Object]guardsLookup{},
 		esmVars: map[types.Object]bool{}, brkVars: map[types.Object]string{}, signer: e.signer, sfield: e.sfield,
 		depth: e.depth + 1, stack: e.stack, items: e.items, helpers: e.helpers, curDecl: d.decl, module: e.module}
 	i := 0
@@ -878,6 +937,9 @@ func (e *guardsEnv) inlineAs(fn *types.Func, d guardsDecl, call *ast.CallExpr, l
 				if o := d.pkg.TypesInfo.Defs[n]; o != nil {
 					t := e.txt(call.Args[i])
 					sub.subst[o] = t
+					if m := e.structView(call.Args[i]); m != nil {
+						sub.structs[o] = m
+					}
 					// a bool parameter carrying the ESM status
 					if e.isEsmStatusExpr(call.Args[i]) {
 						sub.esmVars[o] = true
@@ -926,6 +988,30 @@ func (e *guardsEnv) handleIf(v *ast.IfStmt) {
 	e.handleNested(v, e.txt(v.Cond))
 }
 
+// subRow walks callee fn (called from this site, parameters substituted) into its own helper row
+// and returns the row key "<module>.<Func>(<argument texts>)".
+func (e *guardsEnv) subRow(fn *types.Func, d guardsDecl, call *ast.CallExpr) string {
+	var as []string
+	for i, a := range call.Args {
+		if i == 0 {
+			continue // ctx
+		}
+		as = append(as, e.txt(a))
+	}
+	key := e.module + "." + fn.Name() + "(" + strings.Join(as, ", ") + ")"
+	if _, done := e.helpers[key]; done {
+		return key
+	}
+	var items []string
+	e.helpers[key] = nil
+	sub := &guardsEnv{an: e.an, pkg: e.pkg, subst: e.subst, structs: e.structs, found: e.found, esmVars: e.esmVars, brkVars: e.brkVars,
+		signer: e.signer, sfield: e.sfield, depth: e.depth, stack: e.stack, items: &items, helpers: e.helpers,
+		curDecl: e.curDecl, module: e.module}
+	sub.inlineAs(fn, d, call, nil, false)
+	e.helpers[key] = items
+	return key
+}
+
 func (e *guardsEnv) endsWithReturn(b *ast.BlockStmt) bool {
 	if len(b.List) == 0 {
 		return false
@@ -971,16 +1057,7 @@ func (e *guardsEnv) handleNested(s ast.Stmt, cond string) {
 			if call, ok := e.viaShape(ifs); ok {
 				fn := e.an.calleesOf(e.pkg, call)[0]
 				d := e.an.decls[fn]
-				hname := e.module + "." + fn.Name()
-				if _, done := e.helpers[hname]; !done && !e.stack[fn] {
-					var items []string
-					e.helpers[hname] = nil
-					sub := &guardsEnv{an: e.an, pkg: e.pkg, subst: e.subst, found: e.found, esmVars: e.esmVars, brkVars: e.brkVars,
-						signer: e.signer, sfield: e.sfield, depth: e.depth, stack: e.stack, items: &items, helpers: e.helpers,
-						curDecl: e.curDecl, module: e.module}
-					sub.inline(fn, d, call, nil)
-					e.helpers[hname] = items
-				}
+				hname := e.subRow(fn, d, call)
 				e.emit("IEarlyOkVia " + coqString(hname))
 				return
 			}
@@ -1185,7 +1262,7 @@ func init() {
 		for i, h := range hs {
 			var items []string
 			sf := signers[h.module+"."+h.msgType]
-			env := &guardsEnv{an: an, pkg: h.pkg, subst: map[types.Object]string{}, found: map[types.Object]guardsLookup{},
+			env := &guardsEnv{an: an, pkg: h.pkg, subst: map[types.Object]string{}, structs: map[types.Object]map[string]string{}, found: map[types.Object]guardsLookup{},
 				esmVars: map[types.Object]bool{}, brkVars: map[types.Object]string{}, depth: 0, stack: map[*types.Func]bool{h.fn: true},
 				items: &items, helpers: helpers, curDecl: h.decl, module: h.module, sfield: sf}
 			if sf != "" {
